@@ -412,6 +412,7 @@ func ruleRingWriters(c *Ctx, r *Report, prefix string) {
 	}
 	allowed := map[ssa.Instruction]bool{}
 	nAllowed := 0
+	addIndex := c.funcQuiet("lzma", "buffer.addIndex")
 	for _, fn := range c.ModFuncs("lzma") {
 		recv := fn.Signature.Recv()
 		isBuf := false
@@ -446,6 +447,19 @@ func ruleRingWriters(c *Ctx, r *Report, prefix string) {
 				_, f := storeToField(ins, fFront)
 				_, g := storeToField(ins, fRear)
 				if (f || g) && !allowed[ins] {
+					// the new index is computed by the ring's own wrap function from the old one
+					if st, isSt := ins.(*ssa.Store); isSt {
+						if call, isC := st.Val.(*ssa.Call); isC && addIndex != nil && call.Call.StaticCallee() == addIndex && len(call.Call.Args) == 3 {
+							if fld := fFront; g {
+								fld = fRear
+								if isFieldLoadOf(call.Call.Args[1], fld) {
+									continue
+								}
+							} else if isFieldLoadOf(call.Call.Args[1], fld) {
+								continue
+							}
+						}
+					}
 					bad = fmt.Sprintf("%s moves a ring index of lzma.buffer at %s: outside the ring's own methods the wrap-around (index == len(data) is already outside) is not guaranteed", FnName(fn), c.InstrPos(ins))
 				}
 			}
